@@ -166,6 +166,16 @@ def Holder.kind : Holder α → Kind
   | .tenmat _ => .tenmat
   | .sptenmat _ => .sptenmat
 
+/-- The tensor shape of a holder. -/
+def Holder.shape : Holder α → List Nat
+  | .dense T => T.shape
+  | .sparse S => S.shape
+  | .kruskal K => K.shape
+  | .tucker T => T.shape
+  | .sum P => (P.headD (.dense ⟨[], []⟩)).shape
+  | .tenmat M => M.tshape
+  | .sptenmat M => M.tshape
+
 /-- One conversion method call. -/
 inductive Conv where
   /-- `X.full()` -/
@@ -272,5 +282,25 @@ def chainValid (n : Nat) : List Conv → Kind → Bool
     match c.target k with
     | none => false
     | some k' => c.argsValid n && chainValid n cs k'
+
+/-- `X.double()` of any holder, by class. -/
+def Holder.double [Add α] [Mul α] [Zero α] : Holder α → Except Reject (Dense α)
+  | .dense T => .ok T.double
+  | .sparse S => S.double
+  | .kruskal K => K.double
+  | .tucker T => T.double
+  | .sum P => ML.Sumtensor.double P
+  | .tenmat M => .ok M.double
+  | .sptenmat M => M.double
+
+/-- The matrix of `(khatrirao(A[r], reverse) * λ) @ khatrirao(A[c], reverse).T` as a 2-way
+array (first index fastest) — the Khatri-Rao form of the Kruskal matricization (specification
+side; the code goes through `full()`). -/
+def Ktensor.krTenmat [Add α] [Mul α] [Zero α] (K : Ktensor α) (r c : List Nat) : Except Reject (Dense α) :=
+  match khatrirao (gatherD K.factors r []) true, khatrirao (gatherD K.factors c []) true with
+  | .ok L, .ok Rm =>
+    .ok ⟨[L.length, Rm.length], Rm.flatMap fun rrow => L.map fun lrow =>
+      ((List.range K.ncomp).map fun q => K.weights.getD q 0 * (lrow.getD q 0 * rrow.getD q 0)).sum⟩
+  | _, _ => .error .reject
 
 end Pyttb
